@@ -198,10 +198,10 @@ func (e *Evaluator) eval(n *Node) uint64 {
 // Printer emits SMT-LIB2 definitions incrementally; each shared node becomes a
 // define-fun exactly once per Printer.
 type Printer struct {
-	b       *B
-	sb      *strings.Builder
-	done    map[int]bool
-	Vars    []*Node // variables declared
+	b        *B
+	sb       *strings.Builder
+	done     map[int]bool
+	Vars     []*Node // variables declared
 	apps     map[string][]*Node
 	appVars  map[int]string
 	declared map[string]bool
